@@ -451,6 +451,17 @@ func (g *Gen) leaf() []interface{} {
 		for i := 0; i < n; i++ {
 			list = append(list, g.operand(f))
 		}
+		// listed values may coincide: the same literal twice, the same number in another representation (a
+		// document that holds it is still selected once)
+		for len(list) > 0 && g.chance(0.35) {
+			e := toList(list[g.r.Intn(len(list))])
+			if e[0] == "lit" && len(e) == 2 && toV(e[1])[0] == "num" && g.chance(0.7) {
+				v := toV(e[1])
+				reps := g.U.Reps(toInt(v[1]))
+				e = []interface{}{"lit", ANum(toInt(v[1]), reps[g.r.Intn(len(reps))])}
+			}
+			list = append(list, e)
+		}
 		return []interface{}{"un", "in", B(f), []interface{}{"list", list}}
 	case k < 84:
 		ff := f
